@@ -56,7 +56,7 @@ func (f *Frame) call(in ssa.CallInstruction, res *ssa.Call) {
 	}
 
 	callee := c.StaticCallee()
-	if callee == nil && !c.IsInvoke() {
+	if !c.IsInvoke() {
 		// direct call of a closure created in this function
 		if mc, ok := c.Value.(*ssa.MakeClosure); ok {
 			callee = mc.Fn.(*ssa.Function)
@@ -75,10 +75,8 @@ func (f *Frame) call(in ssa.CallInstruction, res *ssa.Call) {
 		key := fnKey(callee)
 		spec := vc.eng.spec.Funcs[key]
 		if spec != nil && !spec.Inline {
-			if _, isMC := c.Value.(*ssa.MakeClosure); !isMC {
-				f.callByContract(callee, spec, args, res, setResult, in.Pos())
-				return
-			}
+			f.callByContract(callee, spec, args, res, setResult, in.Pos())
+			return
 		}
 		if f.canInline(callee, spec) {
 			f.inlineCall(callee, args, res, setResult)
@@ -209,7 +207,7 @@ func (f *Frame) inlineCall(callee *ssa.Function, args []string, res *ssa.Call, s
 	sort.Strings(ks)
 	ns := &State{m: map[string]string{}}
 	for _, k := range ks {
-		if strings.HasPrefix(k, "L:"+id) || strings.HasPrefix(k, "it:"+id) {
+		if strings.HasPrefix(k, "L:"+f.fnTag()+id) || strings.HasPrefix(k, "it:"+f.fnTag()+id) {
 			continue
 		}
 		var t string
@@ -238,7 +236,7 @@ func (f *Frame) inlineCall(callee *ssa.Function, args []string, res *ssa.Call, s
 	f.cur = ns
 	// writes performed by the callee count as writes of the enclosing loops
 	for k := range keys {
-		if !strings.HasPrefix(k, "L:"+id) && !strings.HasPrefix(k, "it:"+id) {
+		if !strings.HasPrefix(k, "L:"+f.fnTag()+id) && !strings.HasPrefix(k, "it:"+f.fnTag()+id) {
 			if f.get(ns, k) != f.get(sub.entry, k) {
 				f.set(ns, k, ns.m[k])
 			}
@@ -259,6 +257,15 @@ func (f *Frame) callByContract(callee *ssa.Function, spec *FuncSpec, args []stri
 	params := map[string]TV{}
 	for i, p := range callee.Params {
 		params[p.Name()] = TV{args[i], p.Type()}
+	}
+	// free variables of a closure denote the captured variable's value at the call
+	for i, fv := range callee.FreeVars {
+		j := len(callee.Params) + i
+		if j < len(args) {
+			if pt, _ := fv.Type().Underlying().(*types.Pointer); pt != nil {
+				params[fv.Name()] = TV{f.loadPtr(pre, args[j], pt.Elem()), pt.Elem()}
+			}
+		}
 	}
 	mkEnv := func(cur, old *State) *TEnv {
 		env := &TEnv{vc: vc, f: f, pkg: callee.Pkg.Pkg.Name(), vars: map[string]TV{}, cur: stateHeap{f, cur}, old: stateHeap{f, old}}
@@ -397,25 +404,11 @@ func (f *Frame) applyModifies(spec *FuncSpec, env *TEnv, pre, post *State) {
 		cond := And(append([]string{S("<=", "0", "r!m"), S("<=", "r!m", allocPre)}, excl...)...)
 		vc.assume(fmt.Sprintf("(forall ((r!m Int)) (! (=> %s (= (select %s r!m) (select %s r!m))) :pattern ((select %s r!m))))", cond, nv, old, nv))
 	}
-	// keys not mentioned: objects allocated before the call keep their contents,
-	// but fresh objects created by the callee may have any contents.
-	var others []string
-	for k := range vc.universe {
-		if _, ok := byKey[k]; ok || k == "alloc" || strings.HasPrefix(k, "L:") || strings.HasPrefix(k, "it:") {
-			continue
-		}
-		if !strings.HasPrefix(vc.eng.keySort[k], "(Array Int") {
-			continue // globals etc. unchanged
-		}
-		others = append(others, k)
-	}
-	sort.Strings(others)
-	for _, k := range others {
-		old := f.get(pre, k)
-		nv := vc.fresh(k+"@callf", vc.eng.keySort[k])
-		f.set(post, k, nv)
-		vc.assume(fmt.Sprintf("(forall ((r!m Int)) (! (=> (and (<= 0 r!m) (<= r!m %s)) (= (select %s r!m) (select %s r!m))) :pattern ((select %s r!m))))", allocPre, nv, old, nv))
-	}
+	// Keys not mentioned keep their version. Objects the callee allocates may
+	// have any contents in those keys: in the caller's view the cells of a
+	// reference above the pre-call watermark were never constrained, so facts
+	// the postcondition states about them are consistent (contracts never
+	// quantify over raw references without an allocation guard).
 }
 
 // ---------------------------------------------------------------------------
